@@ -18,7 +18,6 @@ theorem subtract_single {fuel : Nat} {sr hole : Rect} {s' : List Rect}
     (∀ r ∈ s', r.Nonempty) ∧ ∀ l c, Covered s' l c ↔ (sr.Mem l c ∧ ¬ hole.Mem l c) := by
   rw [RectSet.subtract_of_nonempty _ _ _ hh] at h
   have hs : ∀ r ∈ [sr], r.Nonempty := by intro r hr; simp at hr; rw [hr]; exact hsr
-  rw [RectSet.subtract_of_nonempty fuel [sr] hole hh] at h
   have hb := RectSet.subtractFrom_bounds fuel [sr] hole 0 s' h hh hs
   have hcov1 : ∀ l c, Covered [sr] l c ↔ sr.Mem l c := by
     intro l c; unfold Covered; simp
